@@ -33,8 +33,13 @@ fn spec_from(s: &mut Src, allow_expect: bool, big_bodies: bool) -> ReqSpec {
 }
 
 fn resp_size(s: &mut Src, big: bool) -> usize {
-    match s.weighted(&[8, 6, 4, if big { 3 } else { 0 }, if big { 2 } else { 0 }]) {
+    match s.weighted(&[8, 6, 4, if big { 3 } else { 0 }, if big { 2 } else { 0 }, 2]) {
         0 => 0,
+        5 => {
+            // powers of two (where buffering strategies change) and their neighbours
+            let k = 1usize << s.range(9, if big { 17 } else { 15 });
+            [k, k, k - 1, k + 1][s.below(4)]
+        }
         1 => s.range(20, 200),
         2 => s.range(1500, 5000),
         3 => s.range(60_000, 90_000),
@@ -1147,7 +1152,7 @@ fn c10_hist(input: &Input, obs: &mut Obs) -> Result<(), Fail> {
                 target_high = true;
                 cycles += 1;
             }
-            let wts: [u32; 14] = if target_high { [14, 2, 1, 4, 2, 3, 2, 3, 1, 2, 1, 2, 1, 1] } else { [3, 10, 3, 3, 1, 4, 2, 2, 1, 2, 2, 2, 2, 2] };
+            let wts: [u32; 15] = if target_high { [14, 2, 1, 4, 2, 3, 2, 3, 1, 2, 1, 2, 1, 1, 1] } else { [3, 10, 3, 3, 1, 4, 2, 2, 1, 2, 2, 2, 2, 2, 2] };
             let op = s.weighted(&wts);
             // with a read-shut client around, the number of held connections is not known exactly
             let mut burst_close = accepted.iter().any(|c| maybe(&w, *c))
@@ -1157,8 +1162,42 @@ fn c10_hist(input: &Input, obs: &mut Obs) -> Result<(), Fail> {
                 0 => {
                     if next_slot < nslots {
                         w.connect(next_slot);
+                        // now and then the newcomer has already sent a request (either version) when
+                        // the server gets to its connection
+                        if s.chance(60) {
+                            let spec = ReqSpec { method: 0, version: s.below(2) as u8, body: 0, expect: false, extra_headers: s.below(2), body_kind: 0 };
+                            w.send_request(next_slot, &spec, &[]);
+                            obs.label("newcomer_sent_a_request_before_being_accepted_or_refused");
+                        }
                         new_conns.push(next_slot);
                         next_slot += 1;
+                    }
+                }
+                14 => {
+                    // one message: well-formed requests that fill most of the server's first read,
+                    // then a request line that is not acceptable and straddles the end of that read;
+                    // the client may leave right away
+                    let live: Vec<usize> = accepted.iter().copied().filter(|c| alive(&w, *c) && !w.clients[*c].dirty && w.clients[*c].staged.is_empty() && w.clients[*c].unsent.is_empty()).collect();
+                    if !live.is_empty() {
+                        let c = live[s.below(live.len())];
+                        let quiet = w.clients[c].composed.len() == w.clients[c].yielded.len();
+                        let spec = ReqSpec { method: 0, version: 1, body: 0, expect: false, extra_headers: 0, body_kind: 0 };
+                        let mut burst = Vec::new();
+                        let fill_to = s.range(900, 1015);
+                        while burst.len() < fill_to {
+                            burst.extend_from_slice(&w.compose(c, &spec));
+                        }
+                        burst.extend_from_slice(b"BROKEN /");
+                        burst.extend(std::iter::repeat(b'x').take(s.range(40, 200)));
+                        burst.extend_from_slice(b" HTTP/1.1\r\n\r\n");
+                        w.clients[c].dirty = true;
+                        w.send_raw(c, &burst);
+                        if quiet {
+                            obs.label("valid_requests_then_a_bad_request_line_across_the_read_boundary");
+                        }
+                        if s.chance(128) {
+                            w.close_client(c);
+                        }
                     }
                 }
                 1 | 2 => {
@@ -2770,9 +2809,15 @@ fn c18_kill(input: &Input, obs: &mut Obs) -> Result<(), Fail> {
     impl Drop for Fd0Guard {
         fn drop(&mut self) {
             KILL_ON_FD0.with(|c| c.set(false));
+            KILL_BLOCKING.with(|c| c.set(false));
         }
     }
     let _fd0_guard = Fd0Guard;
+    // the switch may be an EventFd in blocking mode: the server must only ever watch it
+    if s.chance(60) {
+        KILL_BLOCKING.with(|c| c.set(true));
+        obs.label("kill_switch_in_blocking_mode");
+    }
     let on_fd0 = s.chance(60);
     KILL_ON_FD0.with(|c| c.set(on_fd0));
     if on_fd0 {
@@ -3102,6 +3147,22 @@ fn c04_server(input: &Input, obs: &mut Obs) -> Result<(), Fail> {
                         return Err(("yielded-over-limit".into(), "a request over the limit was yielded".into()));
                     }
                     obs.label("rejected_over_limit");
+                    // now and then the client tries the very same head again: the same verdict,
+                    // answered again
+                    if !front && s.chance(60) {
+                        w.send_raw(c, &probe[..hdr]);
+                        w.settle(200, true);
+                        let a2 = audit_client(&w, c)?;
+                        if a2.n400 != 2 {
+                            return Err(("no-400".into(), format!("client {} (limit {}) declared {} bytes twice in a row and received {} 400 responses", c, l, n, a2.n400)));
+                        }
+                        let (resps, _) = crate::respread::rr_parse(&w.clients[c].recv);
+                        let body2 = resps.iter().filter(|r| r.code == 400).nth(1).map(|r| String::from_utf8_lossy(&r.body).to_string()).unwrap_or_default();
+                        if !body2.contains(&n.to_string()) || !body2.contains(&l.to_string()) {
+                            return Err(("400-numbers".into(), format!("the second 400 for declared {} under limit {} does not report both numbers: \"{}\"", n, l, body2)));
+                        }
+                        obs.label("same_violation_twice_in_a_row");
+                    }
                 } else {
                     w.send_request(c, &spec, &[]);
                     w.settle(400, true);
@@ -3117,6 +3178,34 @@ fn c04_server(input: &Input, obs: &mut Obs) -> Result<(), Fail> {
                 }
             }
             w.settle(200, true);
+            // now and then a client sends a header line beyond the line limit, made of multi-byte
+            // characters behind a name of 1..8 letters (every alignment): refused with a 400
+            if s.chance(50) {
+                let conn = connected(&w);
+                if !conn.is_empty() {
+                    let c = conn[s.below(conn.len())];
+                    let before = audit_client(&w, c)?.n400;
+                    let mut g = b"GET / HTTP/1.1\r\n".to_vec();
+                    g.extend_from_slice(&b"X-Filler"[..s.range(1, 8)]);
+                    g.extend_from_slice(b": ");
+                    let ch = ["\u{e9}", "\u{4e2d}", "\u{1f600}", "a\u{e9}"][s.below(4)];
+                    while g.len() < 16 + 1030 {
+                        g.extend_from_slice(ch.as_bytes());
+                    }
+                    g.extend_from_slice(b"\r\n\r\n");
+                    w.clients[c].dirty = true;
+                    w.send_raw(c, &g);
+                    w.settle(200, true);
+                    if let Some(PollRes::Err(e)) = w.poll_results.iter().find(|r| matches!(r, PollRes::Err(_))) {
+                        return Err((format!("requests-err:{}", e.chars().take(40).collect::<String>()), format!("a header line beyond the line limit: requests() returned Err({})", e)));
+                    }
+                    let a = audit_client(&w, c)?;
+                    if a.n400 <= before {
+                        return Err(("no-400".into(), format!("client {} sent a header line of more than 1024 bytes and received no 400", c)));
+                    }
+                    obs.label("over-long_multi-byte_header_line");
+                }
+            }
         }
         if let Some(PollRes::Err(e)) = w.poll_results.iter().find(|r| matches!(r, PollRes::Err(_))) {
             return Err((format!("requests-err:{}", e), format!("requests() returned Err({})", e)));
